@@ -5,9 +5,14 @@ from .common import MSG, NONSYSEX, RANGE, WIDE, in_range
 
 REJECT = (ValueError, TypeError, AttributeError)
 ENTRIES = ['ctor', 'copy', 'setattr', 'from_dict', 'from_str']
-ILL = [1.5, '1', None, [1], (1,), b'1', 1j, float('inf'), float('nan'), {}, object]
-ILL_TIME_OK = {0, 7, 8}          # 1.5, inf, nan are real numbers: accepted as time
-UNKNOWN_NAMES = ['foo', 'Channel', 'data', 'note_', '', 'is_meta', '__class__', 'bytes', '_setattr']
+ILL = [1.5, '1', None, [1], (1,), b'1', 1j, float('inf'), float('nan'), {}, object,
+       # non-integers that are numerically EQUAL to a valid value or to a default (0, 64): still ill-typed
+       0.0, 64.0, 1.0, 0j, 64 + 0j, -0.0]
+ILL_TIME_OK = {0, 7, 8, 11, 12, 13, 16}          # floats (incl. inf, nan) are real numbers: accepted as time
+UNKNOWN_NAMES = ['foo', 'Channel', 'data', 'note_', '', 'is_meta', '__class__', 'bytes', '_setattr',
+                 # names that are attributes of OTHER message types
+                 'channel', 'note', 'velocity', 'value', 'control', 'program', 'pitch', 'frame_type', 'frame_value',
+                 'pos', 'song']
 
 
 def _base(cx, mido, type_, skip=None):
@@ -150,7 +155,7 @@ def structure(cx, type, entry):
     import mido
     base, vals, t0 = _base(cx, mido, type)
     snap = dict(vars(base))
-    names = list(snap) + UNKNOWN_NAMES
+    names = list(snap) + [u for u in UNKNOWN_NAMES if u not in snap]
     name = names[cx.choice('name', len(names))]
     v = cx.int('v', -WIDE, WIDE)
     if entry == 'del':
@@ -206,9 +211,9 @@ def history(cx, type, k):
 BOUNDS = {
     'quick': 'every (type, value attribute) pair x 5 entry points (constructor, copy, attribute assignment, from_dict, '
              'from_str) with the target value symbolic in [-2^40, 2^40] and the other attributes symbolic in range; '
-             '11-value ill-typed menu per attribute (incl. time) and entry point; sysex data as list/tuple/generator '
+             '17-value ill-typed menu (incl. floats/complex numerically equal to valid values and defaults) per attribute (incl. time) and entry point; sysex data as list/tuple/generator '
              'of length 0..4 with wide symbolic items through ctor/copy/setattr/from_dict/from_str/+=; del of every '
-             'attribute, assignment to type, 9 unknown names; assignment histories of length <=3 on one object',
+             'attribute, assignment to type, 20 foreign names (incl. every attribute name of the other message types, value symbolic); assignment histories of length <=3 on one object',
     'thorough': 'as quick with sysex length 0..6 and histories of length <=4',
 }
 OUTSIDE = 'skip_checks=True; writing through vars(msg); unknown *type names* (LookupError is judged in C14); ' \
